@@ -465,6 +465,79 @@ func c05Verdict(c *Ctx, fname string) {
 			}
 		}
 	}
+	if thresholdIf != nil && verdict == nil {
+		// the verdict without a variable: the loop itself returns the error as soon as one severity reaches
+		// the threshold, and the success exit follows the loop
+		var failRet *ast.ReturnStmt
+		scan := thresholdIf.Body.List
+		if len(thresholdIf.Body.List) == 1 {
+			if br, isBr := thresholdIf.Body.List[0].(*ast.BranchStmt); isBr && br.Tok == token.CONTINUE {
+				scan = nil
+				after := false
+				for _, bs := range loop.Body.List {
+					if bs == ast.Stmt(thresholdIf) {
+						after = true
+						continue
+					}
+					if after {
+						scan = append(scan, bs)
+					}
+				}
+			}
+		}
+		for _, bs := range scan {
+			if r, isRet := bs.(*ast.ReturnStmt); isRet && len(r.Results) == 1 && !isNilIdent(info, r.Results[0]) {
+				failRet = r
+			}
+		}
+		if failRet != nil {
+			// no success exit between the counting and the loop; the one after the loop exists
+			early, afterLoop := "", false
+			var countsPos token.Pos
+			ast.Inspect(fi.Decl.Body, func(n ast.Node) bool {
+				if as, ok := n.(*ast.AssignStmt); ok {
+					for _, l := range as.Lhs {
+						if objOf(info, l) == counts && countsPos == token.NoPos {
+							countsPos = as.Pos()
+						}
+					}
+				}
+				return true
+			})
+			inspectNoLit(fi.Decl.Body, func(n ast.Node) bool {
+				r, ok := n.(*ast.ReturnStmt)
+				if !ok || len(r.Results) != 1 || !isNilIdent(info, r.Results[0]) {
+					return true
+				}
+				switch {
+				case r.Pos() > loop.End():
+					afterLoop = true
+				case r.Pos() > countsPos:
+					early = p.Pos(r.Pos())
+				}
+				return true
+			})
+			extra := ""
+			ast.Inspect(thresholdIf.Cond, func(n ast.Node) bool {
+				if id, ok := n.(*ast.Ident); ok {
+					if o := info.Uses[id]; o != nil && o != sevObj && o != failOn {
+						extra = id.Name
+					}
+				}
+				if _, ok := n.(*ast.CallExpr); ok {
+					extra = "call"
+				}
+				return true
+			})
+			c.Check(extra == "", "C05-R3", short+":threshold test mentions only severity and fail-on", thresholdIf.Cond.Pos(), "pure", "threshold test also depends on "+extra)
+			c.Check(early == "" && afterLoop, "C05-R2", short+":nil return dominated by verdict test", failRet.Pos(), "the loop returns the error itself; the success exit follows the loop",
+				"with the verdict decided inside the loop (error returned there), a `return nil` at "+early+" lies between the counting and the loop, or no success exit follows the loop")
+			c.Ok("C05-R2", short+":verdict true returns an error", failRet.Pos(), "returned from inside the threshold test")
+			c.Ok("C05-R2", short+":threshold test reached for every severity", thresholdIf.Pos(), "first-level statement of the loop")
+			c.Ok("C05-R3", short+":verdict written only under the threshold test", failRet.Pos(), "no verdict variable")
+			return
+		}
+	}
 	if thresholdIf == nil || verdict == nil {
 		c.Bad("C05-R2", short+":threshold comparison is sev >= failOn", loop.Pos(), "no `if sev >= failOn` that updates a verdict variable at the top level of the loop over CountBySeverity()")
 		return
